@@ -1055,7 +1055,8 @@ func (q vC03LoopQueryer) Query(_ context.Context, req *dns.Msg) (*dns.Msg, error
 }
 
 // kind: 0 answer (scopeBits = SCOPE the authority claims, 0 = global), 1 direct SERVFAIL,
-// 2 alias to the question itself, 3 alias into a loop (both end in SERVFAIL after the chase)
+// 2 alias to the question itself, 3 alias into a loop (both end in SERVFAIL after the chase),
+// 4 alias to the question in the other letter case + a record of the type (SERVFAIL since fix a4faf69)
 func (h *vC03Hist) resolve(s vC03Spec, wireborn bool, client netip.Prefix, kind int, scopeBits int) {
 	r := h.r
 	w := vC03WireOf(s.q.name)
@@ -1115,6 +1116,19 @@ func (h *vC03Hist) resolve(s vC03Spec, wireborn bool, client netip.Prefix, kind 
 			resp.Answer = []dns.RR{&dns.CNAME{Hdr: dns.RR_Header{Name: q.Name, Rrtype: dns.TypeCNAME, Class: q.Qclass, Ttl: 300}, Target: q.Name}}
 		case 3:
 			resp.Answer = []dns.RR{&dns.CNAME{Hdr: dns.RR_Header{Name: q.Name, Rrtype: dns.TypeCNAME, Class: q.Qclass, Ttl: 300}, Target: "loop1." + h.names[0]}}
+		case 4:
+			// an alias onto the question in the other letter case, followed by a record of the asked type: the
+			// same loop as kind 2 (fix a4faf69: the test folds case); nothing of it may be admitted
+			b := []byte(q.Name)
+			for i, c := range b {
+				if c >= 'a' && c <= 'z' {
+					b[i] = c - 32
+				} else if c >= 'A' && c <= 'Z' {
+					b[i] = c + 32
+				}
+			}
+			resp.Answer = []dns.RR{&dns.CNAME{Hdr: dns.RR_Header{Name: q.Name, Rrtype: dns.TypeCNAME, Class: q.Qclass, Ttl: 300}, Target: string(b)},
+				vC03Answer(vC03Q{name: q.Name, qtype: q.Qtype, qclass: q.Qclass}, 400000+id)}
 		}
 		_ = ch.Writer.WriteMsg(resp)
 		ch.Cancel()
@@ -1183,7 +1197,7 @@ func (h *vC03Hist) resolve(s vC03Spec, wireborn bool, client netip.Prefix, kind 
 	}
 	h.desc = append(h.desc, fmt.Sprintf("resolve[%s] %v cd=%v ecs=%s downstream=%s -> %s",
 		map[bool]string{true: "wire", false: "msg"}[wireborn], s.q, s.cd, cl,
-		[]string{fmt.Sprintf("answer#%d scope/%d", id, scopeBits), fmt.Sprintf("SERVFAIL#%d", id), fmt.Sprintf("self-alias(SERVFAIL#%d)", id), fmt.Sprintf("alias-loop(SERVFAIL#%d)", id)}[kind], out))
+		[]string{fmt.Sprintf("answer#%d scope/%d", id, scopeBits), fmt.Sprintf("SERVFAIL#%d", id), fmt.Sprintf("self-alias(SERVFAIL#%d)", id), fmt.Sprintf("alias-loop(SERVFAIL#%d)", id), fmt.Sprintf("self-alias-other-case+record(SERVFAIL#%d)", id)}[kind], out))
 }
 
 // audiences of one history: no ECS, two subnets of one family, a host inside the first, another family
@@ -1234,7 +1248,7 @@ func (h *vC03Hist) resolveHistory() {
 		client := h.audience()
 		switch x := r.Intn(10); {
 		case x < 5:
-			kind := []int{0, 0, 1, 1, 2, 3}[r.Intn(6)]
+			kind := []int{0, 0, 1, 1, 2, 3, 4}[r.Intn(7)]
 			bits := 0
 			if client.IsValid() && r.Intn(3) != 0 {
 				bits = []int{8, 16, 24, 32, 48, 56}[r.Intn(6)]
@@ -1242,7 +1256,7 @@ func (h *vC03Hist) resolveHistory() {
 			h.resolve(s, r.Intn(2) == 0, client, kind, bits)
 		case x < 7:
 			// a probe that must not populate anything: if it misses, the downstream fails it for ITS audience
-			h.resolve(s, r.Intn(2) == 0, client, 1+r.Intn(3), 0)
+			h.resolve(s, r.Intn(2) == 0, client, 1+r.Intn(4), 0)
 		case x < 8:
 			if r.Intn(2) == 0 {
 				h.opClock()
